@@ -135,9 +135,11 @@ func genMultiOpt(t *Tape, yieldProbe bool) *multiCase {
 	}
 	var probeDecl *Decl
 	if yieldProbe {
-		probeDecl = &Decl{Kind: KVar, Name: "q quux", Probe: &ProbeSpec{YieldInSet: true}}
+		// (its name sorts before, among or after the other options: an implementation may fill in name order)
+		pn := []string{"Q quux", "q quux", "z quux"}[t.Draw(3)]
+		probeDecl = &Decl{Kind: KVar, Name: pn, Probe: &ProbeSpec{YieldInSet: true}}
 		if len(parts) == 0 || parts[0] != "[OPTIONS]" {
-			parts = append([]string{"[-q]"}, parts...)
+			parts = append([]string{"[-" + pn[:1] + "]"}, parts...)
 		}
 	}
 	c.Spec = strings.Join(parts, " ")
@@ -161,7 +163,8 @@ func genMultiOpt(t *Tape, yieldProbe bool) *multiCase {
 	s.foldAdjacent(t, ds)
 	argv := append([]string{"app"}, s.toks...)
 	if probeDecl != nil {
-		argv = append([]string{"app", []string{"-q=1", "--quux=2", "-q3"}[t.Draw(3)]}, s.toks...)
+		pn := probeDecl.Name[:1]
+		argv = append([]string{"app", []string{"-" + pn + "=1", "--quux=2", "-" + pn + "3"}[t.Draw(3)]}, s.toks...)
 	}
 	if hasArg && t.Draw(2) == 1 {
 		argv = append(argv, "xval")
